@@ -23,6 +23,7 @@ SAFE_METHODS = {
     tuple: {"index", "count"},
     set: {"add", "union", "copy", "difference", "intersection", "issubset", "issuperset", "isdisjoint", "symmetric_difference", "update", "discard", "remove", "pop"},
     frozenset: {"union", "copy", "difference", "intersection", "issubset", "issuperset", "isdisjoint", "symmetric_difference"},
+    type(__import__("re").compile("")): {"sub", "subn", "findall", "match", "search", "fullmatch", "split"},
     slice: {"indices"},
     range: {"index", "count"},
 }
@@ -94,6 +95,7 @@ def _series(data=None, index=None, **kw):
 
 
 EXTERNAL_CONSTANTS = {
+    "keyword.kwlist": list(__import__("keyword").kwlist),
     "optlang.interface.OPTIMAL": "optimal",
     "optlang.interface.INFEASIBLE": "infeasible",
     "optlang.interface.UNBOUNDED": "unbounded",
@@ -173,6 +175,7 @@ class Interp:
         self.calls: List[Tuple[str, Dict[str, Any]]] = []  # (qualname, bound arguments) of every package call seen
         self.module_globals: Dict[str, Dict[str, Any]] = {}
         self.module_consts: Dict[Tuple[str, str], Any] = {}
+        self.module_envs: Dict[str, Dict[str, Any]] = {}
         self.missing_attr_raises = False  # stand-ins that are complete: a missing attribute is an AttributeError
 
     # ------------------------------------------------------------------ calling
@@ -272,7 +275,76 @@ class Interp:
                 csym = self.prog.resolve(ev.fn.unit, norm(v.func))
                 if isinstance(csym, ClassInfo) and csym.name == "Configuration":
                     return self.config
+            # a module-level name that is computed (keywords = list(kwlist); keywords.remove(...); a regex compiled
+            # from it): evaluate the module's top-level statements once, in order
+            env = self._module_env(ev.fn.unit)
+            if e.id in env:
+                return env[e.id]
         return NotImplemented
+
+    def _module_env(self, unit) -> Dict[str, Any]:
+        """Values of the module-level names that can be computed from literals, imported constants and each other.
+        Statements that leave the evaluator's domain are skipped (their names stay unknown)."""
+        got = self.module_envs.get(unit.modname)
+        if got is not None:
+            return got
+        env: Dict[str, Any] = {}
+        self.module_envs[unit.modname] = env
+
+        def on_name(ev_, n: ast.Name):
+            if n.id in env:
+                return env[n.id]
+            sym = self.prog.resolve(unit, n.id)
+            if isinstance(sym, str) and sym in EXTERNAL_CONSTANTS:
+                v = EXTERNAL_CONSTANTS[sym]
+                return list(v) if isinstance(v, list) else v
+            return NotImplemented
+
+        def on_call(ev_, c: ast.Call):
+            f = c.func
+            text = norm(f)
+            sym = self.prog.resolve(unit, text) if isinstance(f, (ast.Name, ast.Attribute)) else None
+            if isinstance(sym, str) and sym in EXTERNAL and sym.startswith(("re.", "collections.")):
+                args = [ev_.eval(a) for a in c.args]
+                kw = {k.arg: ev_.eval(k.value) for k in c.keywords}
+                if any(isinstance(a, Opaque) for a in args + list(kw.values())):
+                    raise Unknown("opaque argument")
+                return EXTERNAL[sym](*args, **kw)
+            if isinstance(f, ast.Attribute):
+                recv = ev_.eval(f.value)
+                for t, allowed in SAFE_METHODS.items():
+                    if isinstance(recv, t) and f.attr in allowed:
+                        args = [ev_.eval(a) for a in c.args]
+                        if any(isinstance(a, Opaque) for a in args):
+                            raise Unknown("opaque argument")
+                        return getattr(recv, f.attr)(*args)
+                raise Unknown(f"module-level call {text}")
+            return NotImplemented
+
+        for st in unit.tree.body:
+            if not isinstance(st, (ast.Assign, ast.AnnAssign, ast.AugAssign, ast.Expr)):
+                continue
+            if isinstance(st, ast.Expr) and isinstance(st.value, ast.Constant):
+                continue
+            targets = [t.id for t in (st.targets if isinstance(st, ast.Assign) else ([st.target] if not isinstance(st, ast.Expr) else [])) if isinstance(t, ast.Name)]
+            sub = Evaluator({}, on_call=on_call)
+            sub.env = env  # by reference: module-level statements build on each other
+            sub.on_name = on_name
+            sub.loops = True
+            try:
+                sub.stmt(st)
+                for t in targets:
+                    if isinstance(env.get(t), Opaque):
+                        env.pop(t, None)
+            except (Unknown, EvalRaise, EvalReturn, Exception):  # noqa: BLE001 - anything outside the domain: name stays unknown
+                for t in targets:
+                    env.pop(t, None)
+                if isinstance(st, ast.Expr):
+                    # a statement with an effect on a known name could not be evaluated: that name is no longer trustworthy
+                    for n in ast.walk(st):
+                        if isinstance(n, ast.Name):
+                            env.pop(n.id, None)
+        return env
 
     def call_value(self, target, args, kwargs, ev, node):
         """Call a FuncRef / PartialRef / Closure value."""
